@@ -20,6 +20,7 @@ func init() {
 		"pkg/apis/v1",
 		"pkg/controllers/nodeclaim/disruption",
 		"pkg/controllers/nodepool/hash",
+		"pkg/controllers/provisioning/scheduling",
 	}, func(g *gen) {
 		const grp = "C15Hash"
 		g.c15ReachableStructs(grp, "pkg/apis/v1", "NodeClaimTemplate", "structs")
@@ -47,7 +48,80 @@ func init() {
 			[]string{"updateNodeClaimHash", "Hash", "Patch"})
 		g.callSeq(grd, "pkg/controllers/nodepool/hash", "Controller.updateNodeClaimHash", "updateNodeClaimHashCalls",
 			[]string{"ListManaged", "Get", "Hash", "Patch"})
+		// what a NodeClaim built from a NodePool is stamped with: the expressions assigned to the two static-drift
+		// annotation keys inside NewNodeClaimTemplate (the hash must be computed from the template the NodeClaim is built
+		// from, not read from the NodePool's eventually-consistent annotation)
+		g.c15Stamps(grd, "pkg/controllers/provisioning/scheduling", "NewNodeClaimTemplate")
 	})
+}
+
+// c15RenderFull is c15Render that also spells the arguments of calls.
+func c15RenderFull(e ast.Expr) string {
+	if ce, ok := e.(*ast.CallExpr); ok {
+		args := []string{}
+		for _, a := range ce.Args {
+			args = append(args, c15RenderFull(a))
+		}
+		return c15RenderFull(ce.Fun) + "(" + strings.Join(args, ", ") + ")"
+	}
+	if se, ok := e.(*ast.SelectorExpr); ok {
+		return c15RenderFull(se.X) + "." + se.Sel.Name
+	}
+	return c15Render(e)
+}
+
+// c15Stamps emits, for fn, the name of its first parameter and every expression that a map literal inside fn assigns to
+// the keys v1.NodePoolHashAnnotationKey / v1.NodePoolHashVersionAnnotationKey (sorted, duplicates kept).
+func (g *gen) c15Stamps(group, pkgPath, fn string) {
+	_, fd := g.findFunc(pkgPath, fn)
+	if fd == nil {
+		return
+	}
+	param := ""
+	if fd.Type.Params != nil && len(fd.Type.Params.List) > 0 && len(fd.Type.Params.List[0].Names) > 0 {
+		param = fd.Type.Params.List[0].Names[0].Name
+	}
+	stamps := map[string][]string{"NodePoolHashAnnotationKey": {}, "NodePoolHashVersionAnnotationKey": {}}
+	ast.Inspect(fd.Body, func(nd ast.Node) bool {
+		switch v := nd.(type) {
+		case *ast.KeyValueExpr:
+			k := c15Render(v.Key)
+			for name := range stamps {
+				if k == name || strings.HasSuffix(k, "."+name) {
+					stamps[name] = append(stamps[name], c15RenderFull(v.Value))
+				}
+			}
+		case *ast.AssignStmt:
+			// m[key] = value
+			for i, lhs := range v.Lhs {
+				ix, ok := lhs.(*ast.IndexExpr)
+				if !ok || i >= len(v.Rhs) {
+					continue
+				}
+				k := c15Render(ix.Index)
+				for name := range stamps {
+					if k == name || strings.HasSuffix(k, "."+name) {
+						stamps[name] = append(stamps[name], c15RenderFull(v.Rhs[i]))
+					}
+				}
+			}
+		}
+		return true
+	})
+	b := g.out(group)
+	fmt.Fprintf(b, "/-- the first parameter of `%s.%s` (%s) -/\ndef claimTemplateParam : String := %s\n\n", pkgPath, fn, g.pos(fd.Pos()), leanStr(param))
+	for _, e := range [][2]string{{"NodePoolHashAnnotationKey", "claimHashStamps"}, {"NodePoolHashVersionAnnotationKey", "claimHashVersionStamps"}} {
+		vs := stamps[e[0]]
+		sort.Strings(vs)
+		fmt.Fprintf(b, "/-- every expression `%s.%s` assigns to the annotation `v1.%s` of the NodeClaim it builds -/\ndef %s : List String := [", pkgPath, fn, e[0], e[1])
+		for i, v := range vs {
+			if i > 0 {
+				b.WriteString(", ")
+			}
+			b.WriteString(leanStr(v))
+		}
+		b.WriteString("]\n\n")
+	}
 }
 
 // c15ReachableStructs walks the type graph the way hashstructure's visitor does (pointers, slices, arrays and maps are
